@@ -271,7 +271,9 @@ fn classify(code: i32, stderr: &str) -> &'static str {
   }
 }
 
-const TEXTS: [(&str, &str); 4] = [
+const TEXTS: [(&str, &str); 5] = [
+  // an html file whose css regions are met out of document order (script regions are collected before style regions)
+  ("e.html", "<html><head><style>\na { color: red }\n</style></head>\n<body><script lang=\"css\">\nb { color: blue }\n</script>\n<script>\nfoo(1);\n</script></body></html>\n"),
   // captured texts that stress per-character work: upper/lower runs with multi-byte letters, title-case digraphs,
   // letters whose case mapping changes length, combining marks, separators at the edges
   ("d.js", "foo(ÉÀb); foo(XMLÉb); foo(ǅemal); foo(ßtraSSe); foo(İi̇I); foo(aB_c__D); foo(_); foo($x); foo(ÀÉ); foo(é); foo(x̃Ỹz); foo(ＡＢc); foo(\"ÉÀb-Çd_ÊF\"); foo(ab); foo(abc); foo(abcd); foo(\"\");\n"),
@@ -295,7 +297,7 @@ fn run_modes(id: &str, text: &str, scratch: &str) -> Vec<Value> {
   push("rule-file", run_sgv(&["scan", "-r", "rule.yml", "--json=stream", "src"], &p.root, None, 15, &[]));
   push("rule-file-update", run_sgv(&["scan", "-r", "rule.yml", "-U", "src"], &p.root, None, 15, &[]));
   // (2) inline rules on stdin input
-  push("inline-stdin", run_sgv(&["scan", "--inline-rules", text, "--stdin", "--json=stream"], &p.root, Some(TEXTS[0].1), 15, &[]));
+  push("inline-stdin", run_sgv(&["scan", "--inline-rules", text, "--stdin", "--json=stream"], &p.root, Some(TEXTS[1].1), 15, &[]));
   p.remove();
   // (3) project: as rule in ruleDirs, as utility file, as test file
   let p = Project::new(&format!("{scratch}/{id}-proj"));
@@ -313,7 +315,7 @@ fn run_modes(id: &str, text: &str, scratch: &str) -> Vec<Value> {
   // (4) as sgconfig.yml
   let p = Project::new(&format!("{scratch}/{id}-cfg"));
   p.write("sgconfig.yml", text.as_bytes());
-  p.write("src/a.js", TEXTS[0].1.as_bytes());
+  p.write("src/a.js", TEXTS[1].1.as_bytes());
   push("as-sgconfig", run_sgv(&["scan"], &p.root, None, 15, &[]));
   p.remove();
   out
